@@ -288,59 +288,123 @@ ROUND_TRIPS = [
 # it higher-ranked, `for<'r> Fn(Record<'r, T>) -> Record<'r, T>`, and reject both.)
 # For closures over plain numbers (`unary`, `binary`, `*_assign`, `do_*`) the closure may capture
 # numbers taken from another record.
-# (name, kind, receiver type, call with {F} / {G} / {H} placeholders, closures capturing `k` (R<'a>) or
-#  `kn` (f64), generic bound for the pass-through variant or None, result type, covers)
-CLOSURES = []
-
-
-def closure(name, kind, recv, call, fs, bound, result, covers):
-    CLOSURES.append({"name": name, "kind": kind, "recv": recv, "call": call, "fs": fs, "bound": bound,
-                     "result": result, "covers": covers})
-
-
-RES = {"RT": "Result<RT<'a>, InconsistentHistory<'a, f64>>", "RM": "Result<RM<'a>, InconsistentHistory<'a, f64>>",
-       "unit": "Result<(), InconsistentHistory<'a, f64>>"}
-closure("RecordTensor::map", "RT", "&RT<'a>", "c.map({F})", ["|x| x * k + k"], "Fn(R<'a>) -> R<'a>", RES["RT"], [(M, "map")])
-closure("RecordTensor::map_with_index", "RT", "&RT<'a>", "c.map_with_index({F})", ["|_, x| x * k + k"],
-        "Fn([usize; 2], R<'a>) -> R<'a>", RES["RT"], [(M, "map_with_index")])
-closure("RecordTensor::map_mut", "RT", "&mut RT<'a>", "c.map_mut({F})", ["|x| x * k + k"], "Fn(R<'a>) -> R<'a>", RES["unit"],
-        [(M, "map_mut")])
-closure("RecordTensor::map_mut_with_index", "RT", "&mut RT<'a>", "c.map_mut_with_index({F})", ["|_, x| x * k + k"],
-        "Fn([usize; 2], R<'a>) -> R<'a>", RES["unit"], [(M, "map_mut_with_index")])
-closure("RecordMatrix::map", "RM", "&RM<'a>", "c.map({F})", ["|x| x * k + k"], "Fn(R<'a>) -> R<'a>", RES["RM"], [(M, "map")])
-closure("RecordMatrix::map_with_index", "RM", "&RM<'a>", "c.map_with_index({F})", ["|x, _, _| x * k + k"],
-        "Fn(R<'a>, usize, usize) -> R<'a>", RES["RM"], [(M, "map_with_index")])
-closure("RecordMatrix::map_mut", "RM", "&mut RM<'a>", "c.map_mut({F})", ["|x| x * k + k"], "Fn(R<'a>) -> R<'a>", RES["unit"],
-        [(M, "map_mut")])
-closure("RecordMatrix::map_mut_with_index", "RM", "&mut RM<'a>", "c.map_mut_with_index({F})", ["|x, _, _| x * k + k"],
-        "Fn(R<'a>, usize, usize) -> R<'a>", RES["unit"], [(M, "map_mut_with_index")])
-U = ["|v| v * kn", "|_| kn"]
-B = ["|x, y| x * y * kn", "|_, y| y * kn", "|x, _| x * kn"]
-closure("Record::unary", "R", "&R<'a>", "c.unary({F}, {G})", U, None, "R<'a>", [(D, "unary")])
-closure("Record::binary", "R", "&R<'a>", "c.binary(d, {F}, {G}, {H})", B, None, "R<'a>", [(D, "binary")])
-for kind, ty in (("RT", "RT<'a>"), ("RM", "RM<'a>")):
-    nm = "RecordTensor" if kind == "RT" else "RecordMatrix"
-    closure(f"{nm}::unary", kind, f"&{ty}", "c.unary({F}, {G})", U, None, ty, [(M, "unary")])
-    closure(f"{nm}::binary", kind, f"&{ty}", "c.binary(d, {F}, {G}, {H})", B, None, ty, [(M, "binary")])
-    closure(f"{nm}::unary_assign", kind, f"&mut {ty}", "c.unary_assign({F}, {G})", U, None, "()", [(M, "unary_assign")])
-    closure(f"{nm}::binary_left_assign", kind, f"&mut {ty}", "c.binary_left_assign(d, {F}, {G}, {H})", B, None, "()",
-            [(M, "binary_left_assign")])
-    closure(f"{nm}::binary_right_assign", kind, f"&mut {ty}", "d.binary_right_assign(c, {F}, {G}, {H})", B, None, "()",
-            [(M, "binary_right_assign")])
-    closure(f"{nm}::do_unary_assign", kind, ty, "c.do_unary_assign({F}, {G})", U, None, ty, [(M, "do_unary_assign")])
-    closure(f"{nm}::do_binary_left_assign", kind, ty, "c.do_binary_left_assign(d, {F}, {G}, {H})", B, None, ty,
-            [(M, "do_binary_left_assign")])
-    closure(f"{nm}::do_binary_right_assign", kind, ty, "d.do_binary_right_assign(c, {F}, {G}, {H})", B, None, ty,
-            [(M, "do_binary_right_assign")])
+# The rows are not written by hand: `closure_rows` synthesizes them from the signatures found in the sources.
 # closure-taking methods whose closures see no tape lifetime at all (Trace; TensorAccess over plain elements)
 CLOSURES_WITHOUT_TAPE = [(D, "derivative"), (X, "map"), (X, "map_with_index"), (X, "map_mut"), (X, "map_mut_with_index")]
+
+
+# ------------------------------------------------------------------------------------------
+# closure-taking methods, regenerated from the source signatures (scan -> table -> probes)
+# ------------------------------------------------------------------------------------------
+
+OWNER_KIND = {"Record": "R", "RecordTensor": "RT", "RecordMatrix": "RM"}
+TAPELESS_OWNERS = {"Trace"}      # no tape lifetime anywhere in the type: nothing to probe
+
+
+def scan_closure_signatures(repo):
+    """Every `pub fn` with an `impl Fn…(…)` parameter in the record modules, with its owner type (nearest
+    enclosing `impl … Owner<` header), receiver, parameters and closure shapes."""
+    sigs = []
+    for rel in (D, M, I):
+        path = os.path.join(repo, rel)
+        if not os.path.exists(path):
+            continue
+        t = gen_structs.strip_comments_and_strings(open(path).read())
+        headers = [(m.start(), m.group(1)) for m in re.finditer(r"\bimpl\s*<[^{;]*?>\s*(\w+)\s*<", t)]
+        for m in re.finditer(r"pub fn\s+(\w+)\s*(<[^(]*>)?\s*\(", t):
+            i = m.end() - 1
+            e = gen_structs.match_close(t, i, "(", ")")
+            params = [re.sub(r"\s+", " ", p).strip() for p in gen_structs.split_top(t[i + 1:e]) if p.strip()]
+            if not any(re.search(r"\bimpl\s+Fn(Mut|Once)?\s*\(", p) for p in params):
+                continue
+            owner = None
+            for pos, name in headers:
+                if pos < m.start():
+                    owner = name
+            sigs.append({"file": rel, "name": m.group(1), "owner": owner, "params": params,
+                         "line": t[:m.start()].count("\n") + 1})
+    return sigs
+
+
+def concrete(ty, dim="2"):
+    """the signature's generic types at the probe's concrete instantiation"""
+    # the documented bound names the tape lifetime, whatever the signature under test spells
+    ty = re.sub(r"Record<(?:'\w+,\s*)?T>", "R<'a>", ty)
+    ty = re.sub(r"\[usize;\s*D\]", f"[usize; {dim}]", ty)
+    ty = re.sub(r"\b(Row|Column)\b", "usize", ty)
+    ty = re.sub(r"\bT\b", "f64", ty)
+    return ty
+
+
+def synthesize_closure_probe(sig):
+    """-> dict like the rows of CLOSURES, or None if a parameter has a shape this generator does not know"""
+    kind = OWNER_KIND.get(sig["owner"])
+    if kind is None:
+        return None
+    ctype = KIND[kind][0]
+    params = list(sig["params"])
+    recv_src = params.pop(0) if params and re.fullmatch(r"(&(mut )?)?(mut )?self", params[0]) else None
+    if recv_src is None:
+        return None
+    recv = {"&self": f"&{ctype}", "&mut self": f"&mut {ctype}", "self": ctype, "mut self": ctype}.get(recv_src)
+    if recv is None:
+        return None
+    args, captures, bounds, over_records = [], [], [], False
+    for p in params:
+        pname, _, pty = p.partition(":")
+        pty = pty.strip()
+        m = re.fullmatch(r"impl\s+(Fn(?:Mut|Once)?)\s*\((.*)\)\s*->\s*(.*)", pty)
+        if m:
+            arg_tys = [a.strip() for a in gen_structs.split_top(m.group(2))]
+            names = [f"a{j}" for j in range(len(arg_tys))]
+            rec = [n for n, a in zip(names, arg_tys) if "Record<" in a]
+            if rec:
+                over_records = True
+                body = f"{rec[0]} * k + k"
+                bounds.append(f"{m.group(1)}({', '.join(concrete(a) for a in arg_tys)}) -> {concrete(m.group(3))}")
+            else:
+                used = [n for n, a in zip(names, arg_tys) if re.fullmatch(r"T", a)]
+                body = " * ".join(used + ["kn"])
+                bounds.append(None)
+            shown = [n if n in (rec or used) else "_" + n for n in names]
+            captures.append(f"|{', '.join(shown)}| {body}")
+            args.append(None)          # placeholder: filled per variant
+            continue
+        if re.fullmatch(r"&\s*Record(Tensor|Matrix)?<'a,.*>", pty):
+            args.append("d")
+        elif re.fullmatch(r"&mut\s*Record(Tensor|Matrix)<'a,.*>", pty):
+            args.append("&mut d.map(|r| r).unwrap()")
+        elif re.fullmatch(r"Record(Tensor|Matrix)<'a,.*>", pty):
+            args.append("d.map(|r| r).unwrap()")
+        elif re.fullmatch(r"Record<'a,.*>", pty):
+            args.append("d.clone()")
+        else:
+            return None
+    return {"name": f"{sig['owner']}::{sig['name']}", "kind": kind, "recv": recv, "args": args, "captures": captures,
+            "bounds": bounds, "over_records": over_records, "covers": [(sig["file"], sig["name"])],
+            "source": f"{sig['file']}:{sig['line']}"}
+
+
+def closure_rows(repo):
+    """(rows synthesized from the sources, signatures the generator could not handle)"""
+    rows, unknown = [], []
+    for sig in scan_closure_signatures(repo):
+        if sig["owner"] in TAPELESS_OWNERS:
+            continue
+        row = synthesize_closure_probe(sig)
+        if row is None:
+            unknown.append((sig["file"], f"{sig['owner']}::{sig['name']} (closure parameter; signature not understood)"))
+        else:
+            rows.append(row)
+    return rows, unknown
 
 
 def pid(s):
     return re.sub(r"[^A-Za-z0-9]+", "_", s).strip("_")[:140]
 
 
-def generate(workdir):
+def generate(workdir, repo=None):
+    repo = repo or os.environ.get("EASYML_REPO", "/repo")
     """-> [{"id", "path", "rule", "expect": (verdict, [codes]), "family": "lifetime…"}]"""
     os.makedirs(workdir, exist_ok=True)
     rows = []
@@ -377,35 +441,44 @@ def generate(workdir):
             emit(f"life_tape_{e['name']}",
                  f"[lifetime] the result of `{e['name']}` cannot outlive the tape", ("fail", ["E0597", "E0505", "E0716"]),
                  body, "lifetime.outlives-tape")
-    for cl in CLOSURES:
-        ctype, _mk = KIND[cl["kind"]]
-        fill = dict(zip(["F", "G", "H"], cl["fs"]))
-        call = cl["call"]
-        for key, val in fill.items():
-            call = call.replace("{" + key + "}", val)
-        body = (f"fn probe<'a>(c: {cl['recv']}, d: &{ctype}, other: &R<'a>) -> {cl['result']} {{\n"
+    rows_auto, _unknown = closure_rows(repo)
+    for cl in rows_auto:
+        ctype, mk = KIND[cl["kind"]]
+        it = iter(cl["captures"])
+        call_args = ", ".join(a if a is not None else next(it) for a in cl["args"])
+        body = (f"fn probe<'a>(c: {cl['recv']}, d: &{ctype}, other: &R<'a>) {{\n"
                 "    let k: R<'a> = other.clone();\n    let kn: f64 = other.number;\n"
-                f"    {call}\n}}\nfn main() {{}}\n")
-        emit(f"life_closure_capture_{cl['name']}",
-             f"[lifetime] the closure passed to `{cl['name']}` may capture "
-             + ("another record of the same tape and combine it with its argument" if cl["bound"] else
+                f"    let _result = c.{cl['name'].split('::')[1]}({call_args});\n}}\nfn main() {{}}\n")
+        emit(f"life_closure_capture_{cl['name']}_{cl['source'].split(':')[1]}",
+             f"[lifetime] the closure passed to `{cl['name']}` ({cl['source']}) may capture "
+             + ("another record of the same tape and combine it with its argument" if cl["over_records"] else
                 "numbers taken from another record"),
              ("compile", []), body, "lifetime.closure-captures")
-        if cl["bound"]:
-            call = cl["call"].replace("{F}", "f")
-            body = (f"fn probe<'a, F: {cl['bound']}>(c: {cl['recv']}, f: F) -> {cl['result']} {{\n    {call}\n}}\nfn main() {{}}\n")
-            emit(f"life_closure_passthrough_{cl['name']}",
-                 f"[lifetime] `{cl['name']}` accepts a caller's `F: {cl['bound']}` (the bound names the tape lifetime, it is "
-                 "not higher-ranked)", ("compile", []), body, "lifetime.closure-bound")
-            # the documented usage, end to end
-            mk = KIND[cl["kind"]][1]
-            recv_expr = "&mut x" if cl["recv"].startswith("&mut") else "&x"
+        if cl["over_records"]:
+            gens, fargs, k = [], [], 0
+            for a in cl["args"]:
+                if a is None:
+                    gens.append(f"F{k}: {cl['bounds'][k]}")
+                    fargs.append(f"f{k}")
+                    k += 1
+            it = iter(fargs)
+            call_args = ", ".join(a if a is not None else next(it) for a in cl["args"])
+            fparams = ", ".join(f"{f}: F{j}" for j, f in enumerate(fargs))
+            body = (f"fn probe<'a, {', '.join(gens)}>(c: {cl['recv']}, d: &{ctype}, {fparams}) {{\n"
+                    f"    let _result = c.{cl['name'].split('::')[1]}({call_args});\n}}\nfn main() {{}}\n")
+            emit(f"life_closure_passthrough_{cl['name']}_{cl['source'].split(':')[1]}",
+                 f"[lifetime] `{cl['name']}` ({cl['source']}) accepts a caller's `{gens[0]}` (the bound names the tape "
+                 "lifetime, it is not higher-ranked)", ("compile", []), body, "lifetime.closure-bound")
+            recv_expr = "&mut x" if cl["recv"].startswith("&mut") else ("x" if not cl["recv"].startswith("&") else "&x")
+            it = iter(cl["captures"])
+            call_args = ", ".join(a if a is not None else next(it) for a in cl["args"])
             body = ("fn main() {\n    let tape: Tape = WengertList::new();\n    let list = &tape;\n"
-                    f"    let mut x = {mk}(list);\n    let k = Record::variable(5.0, list);\n    let c = {recv_expr};\n"
-                    f"    let _ = {cl['call'].replace('{F}', cl['fs'][0])};\n}}\n")
-            emit(f"life_closure_usage_{cl['name']}",
-                 f"[lifetime] documented usage of `{cl['name']}`: combine every element with a separately created record of the "
-                 "same WengertList", ("compile", []), body, "lifetime.closure-usage")
+                    f"    let mut x = {mk}(list);\n    let other = {mk}(list);\n    let d = &other;\n"
+                    f"    let k = Record::variable(5.0, list);\n    let c = {recv_expr};\n"
+                    f"    let _ = c.{cl['name'].split('::')[1]}({call_args});\n}}\n")
+            emit(f"life_closure_usage_{cl['name']}_{cl['source'].split(':')[1]}",
+                 f"[lifetime] documented usage of `{cl['name']}` ({cl['source']}): combine every element with a separately "
+                 "created record of the same WengertList", ("compile", []), body, "lifetime.closure-usage")
     for name, _kind, src in ROUND_TRIPS:
         emit(f"life_{name}", f"[lifetime] {name}", ("compile", []), src + "\nfn main() {}\n", "lifetime.round-trip")
     return rows
@@ -505,15 +578,24 @@ def coverage(repo):
     for e in ENTRIES:
         covered |= set(e["covers"])
     found = scan_entry_points(repo) | scan_conversion_impls(repo)
+    # closure-taking methods: the probe rows are synthesized from the signatures themselves; only a
+    # signature the synthesizer does not understand (or an owner type it does not know) is reported
+    rows_auto, unknown = closure_rows(repo)
     closure_covered = set(CLOSURES_WITHOUT_TAPE)
-    for cl in CLOSURES:
+    for sig in scan_closure_signatures(repo):
+        if sig["owner"] in TAPELESS_OWNERS:
+            closure_covered.add((sig["file"], sig["name"]))
+    for cl in rows_auto:
         closure_covered |= set(cl["covers"])
     closure_found = scan_closure_methods(repo)
-    missing = sorted(found - covered) + sorted((f, n + " (closure parameter)") for f, n in closure_found - closure_covered)
+    missing = (sorted(found - covered) + sorted(unknown)
+               + sorted((f, n + " (closure parameter)") for f, n in closure_found - closure_covered))
     return missing, len(found) + len(closure_found)
 
 
 if __name__ == "__main__":
     missing, n = coverage(os.environ.get("EASYML_REPO", "/repo"))
     print(f"{n} entry points with a tape lifetime in their result; not in the table: {missing}")
+    rows, unknown = closure_rows(os.environ.get("EASYML_REPO", "/repo"))
+    print(len(rows), "closure-taking methods synthesized from their signatures;", len(unknown), "not understood:", unknown)
     print(len(generate("/tmp/c20_lifetimes_probe_dump")), "probes generated")
